@@ -16,6 +16,7 @@ PROP = dict(
              "pillar_epoch": ("pillar_epoch_run", "status_credits_eqb", "pillar_epoch_in * (Z * list (Z * Z))"),
              "stake_epoch": ("stake_epoch_run", "stake_epoch_eqb", "stake_epoch_in * (Z * list (Z * Z) * Z)"),
              "sentinel_epoch": ("sentinel_epoch_run", "sentinel_epoch_eqb", "sentinel_epoch_in * (Z * list (Z * Z) * list (Z * Z))"),
+             "liq_stake_epoch": ("liq_stake_run", "liq_stake_eqb", "liq_stake_in * liq_stake_out"),
              "cursor": ("cursor_run", "cursor_eqb", "(Z * Z * Z * Z * Z) * (list Z * Z)"),
              "collect": ("collect_run", "collect_eqb", "(Z * Z) * (Z * list (Z * Z) * (Z * Z))"),
              "rops": ("rops_run", "rops_eqb", "(Z * list (Z * Z * Z * Z)) * (list (Z * Z) * list (Z * Z))"),
